@@ -112,3 +112,85 @@ pub fn dump_core(c: &RuleCore<L>, rx: &mut Regexes, with_registry: bool) -> Valu
   }
   v
 }
+
+/// the strictness of every pattern atom of a rule, in no particular order (relations: the sub-rule
+/// and a `stopBy` rule; `nthChild`: its `ofRule`)
+pub fn collect_strictness(r: &Rule<L>, out: &mut Vec<&'static str>) {
+  fn stop(s: &StopBy<L>, out: &mut Vec<&'static str>) {
+    if let StopBy::Rule(r) = s {
+      collect_strictness(r, out);
+    }
+  }
+  match r {
+    Rule::Pattern(p) => out.push(strictness_name(&p.strictness)),
+    Rule::Kind(_) | Rule::Regex(_) | Rule::Range(_) | Rule::Matches(_) => {}
+    Rule::NthChild(n) => {
+      if let Some(of) = n.verif_parts().2 {
+        collect_strictness(of, out);
+      }
+    }
+    Rule::Inside(i) => {
+      let (r, s, _) = i.verif_parts();
+      collect_strictness(r, out);
+      stop(s, out);
+    }
+    Rule::Has(i) => {
+      let (r, s, _) = i.verif_parts();
+      collect_strictness(r, out);
+      stop(s, out);
+    }
+    Rule::Precedes(i) => {
+      let (r, s) = i.verif_parts();
+      collect_strictness(r, out);
+      stop(s, out);
+    }
+    Rule::Follows(i) => {
+      let (r, s) = i.verif_parts();
+      collect_strictness(r, out);
+      stop(s, out);
+    }
+    Rule::All(a) => a.inner().iter().for_each(|x| collect_strictness(x, out)),
+    Rule::Any(a) => a.inner().iter().for_each(|x| collect_strictness(x, out)),
+    Rule::Not(n) => collect_strictness(n.inner(), out),
+  }
+}
+
+/// the same over a rule core: rule, constraints and local utilities
+pub fn core_strictness(c: &RuleCore<L>) -> Vec<&'static str> {
+  let (rule, constraints, _, reg) = c.verif_parts();
+  let mut out = vec![];
+  collect_strictness(rule, &mut out);
+  for r in constraints.values() {
+    collect_strictness(r, &mut out);
+  }
+  for r in reg.verif_locals().values() {
+    collect_strictness(r, &mut out);
+  }
+  out.sort();
+  out
+}
+
+/// what the rule TEXT says: every `pattern` key of the document (global utilities aside), `smart` when it is a plain string or
+/// an object without `strictness`
+pub fn spec_strictness(v: &Value, out: &mut Vec<String>) {
+  match v {
+    Value::Object(m) => {
+      for (k, x) in m {
+        if k == "globals" {
+          // global utilities are separate rule files: not part of `core_strictness`
+          continue;
+        }
+        if k == "pattern" {
+          match x {
+            Value::Object(p) => out.push(p.get("strictness").and_then(|s| s.as_str()).unwrap_or("smart").to_string()),
+            _ => out.push("smart".into()),
+          }
+        } else {
+          spec_strictness(x, out);
+        }
+      }
+    }
+    Value::Array(a) => a.iter().for_each(|x| spec_strictness(x, out)),
+    _ => {}
+  }
+}
